@@ -261,7 +261,9 @@ impl HandleRequest for EMAppend {
             .map(|(event_id, timestamp, stream_id)| {
                 let version = stream_current_version.get_mut(&stream_id).unwrap();
                 let stream_version = *version;
-                *version -= 1;
+                // walking backwards; the first event of a stream may be at version 0, and the
+                // value is not used again after it
+                *version = version.saturating_sub(1);
                 EventInfo {
                     event_id,
                     stream_id,
